@@ -157,7 +157,7 @@ Definition incomplete (s : status) : bool := match s with Inprogress | Unknown =
 
 Definition summary_okb (ts : list rec) (so : sumobs) : bool :=
   (* testsRun counts the reported tests whose status is not 'exists' *)
-  Nat.eqb (so_run so) (length (filter (fun r => negb (status_eqb (r_status r) Exists)) ts))
+  Nat.eqb (so_run so) (List.length (filter (fun r => negb (status_eqb (r_status r) Exists)) ts))
   (* each test is in exactly the list its status names, none for success / exists;
      a 'fail' test is in exactly one of errors / failures, an incomplete one in errors *)
   && ids_eqb (so_skipped so) (ids_with (is_st Skip) ts)
@@ -175,7 +175,7 @@ Definition spec_okb (i : input) (o : obs) : bool :=
 
 (* ---------- the readable statement ---------- *)
 Definition Summary_spec (ts : list rec) (so : sumobs) : Prop :=
-  so_run so = length (filter (fun r => negb (status_eqb (r_status r) Exists)) ts)
+  so_run so = List.length (filter (fun r => negb (status_eqb (r_status r) Exists)) ts)
   /\ so_skipped so = ids_with (is_st Skip) ts
   /\ so_xfail so = ids_with (is_st Xfail) ts
   /\ so_uxs so = ids_with (is_st Uxsuccess) ts
